@@ -1,6 +1,7 @@
 import Lz4V.Util
 import Lz4V.Model.FrameW
 import Lz4V.Model.FrameR
+import Lz4V.Model.CReader
 /-!
 # Session — line-protocol front end of the Writer / Reader models
 
@@ -108,6 +109,28 @@ def readerSession (f : List String) : IO String := do
       | _ => res := res.push "bad-op"
     pure s!"{" ".intercalate res.toList} ; consumed={r.src.pos}"
   | _ => pure "bad-op"
+
+/-- `CR <opts|-> <data> <chunk> <failAt> <eofWithData> <size>…`: the compressing reader read with the
+given buffer sizes (the last size is repeated until io.EOF or an error, at most 100000 calls) -/
+def crSession (f : List String) : String :=
+  match f with
+  | o :: d :: chunk :: fa :: ewd :: sizes =>
+    let src : Source := { data := parseData d, chunk := chunk.toNat!, failAt := optNat fa, eofWithData := ewd == "1" }
+    let c0 := CReader.new src
+    let (c1, ae) := if o == "-" then (c0, none) else CReader.apply c0 (parseOpts o).1
+    let szs := sizes.map String.toNat!
+    let rec go (c : CReader.CR) (szs : List Nat) (last : Nat) (res : Array String) (total : Nat) : Nat → Array String × Nat
+      | 0 => (res, total)
+      | fuel+1 =>
+        let (n, rest) := match szs with | [] => (last, []) | x :: xs => (x, xs)
+        let (c, out, e) := CReader.read c n
+        let res := if res.size < 60 then res.push s!"{out.size}/{fnv out out.size}/{errName e}" else res
+        match e with
+        | some _ => (res, total + out.size)
+        | none => if n = 0 ∧ rest.isEmpty then (res, total) else go c rest n res (total + out.size) fuel
+    let (res, total) := go c1 szs 0 #[] 0 100000
+    s!"{errName ae} {" ".intercalate res.toList} ; total={total}"
+  | _ => "bad-op"
 
 /-- `HD flg bd sz mode`: the header-acceptance table of C19 as the model predicts it -/
 def hdSession (f : List String) : String :=
